@@ -16,7 +16,7 @@ use serde_json::{json, Value};
 use std::sync::{Arc, Mutex};
 use std::time::Duration;
 
-fn enabled(node: &Node, h: &[u8], mode: &str, faults: bool, max_new: usize) -> Vec<Value> {
+fn enabled(node: &Node, h: &[u8], mode: &str, faults: bool, max_new: usize, depth: usize) -> Vec<Value> {
     let mut ev = vec![];
     let hn = node.hashes.get(h);
     for c in node.calls.iter() {
@@ -51,7 +51,8 @@ fn enabled(node: &Node, h: &[u8], mode: &str, faults: bool, max_new: usize) -> V
         for (pid, p) in hn.parts.iter().enumerate() {
             if p.status == PStat::Pend {
                 ev.push(json!({"e": "part", "pid": pid, "st": "done"}));
-                let code = [202, 203, 204, 209][pid % 4];
+                // every documented terminal waitsendpay code, varied with the part and with the depth at which the part fails
+                let code = [202, 203, 204, 208, 209][(pid + depth) % 5];
                 ev.push(json!({"e": "part", "pid": pid, "st": "fail", "code": code}));
             }
         }
@@ -142,7 +143,7 @@ fn run_path(mode: &str, parts: &[String], choices: &[usize], faults: bool, max_n
             }
             if let Some(last) = steps.last_mut() { let l: &mut Value = last; l["out"] = json!(out); } else { steps.push(json!({"out": out, "start": true})); events.push(json!({"e": "start"})); }
             if result.lock().unwrap().is_some() || step >= max_len { break; }
-            let en = { let n = node.lock().unwrap(); enabled(&n, &h, mode, faults, max_new) };
+            let en = { let n = node.lock().unwrap(); enabled(&n, &h, mode, faults, max_new, events.len()) };
             if en.is_empty() { break; }
             let choice = choices.get(step).cloned().unwrap_or(0).min(en.len() - 1);
             factors.push(en.len());
